@@ -125,6 +125,14 @@ func (s *Solver) solve(o *Oblig) {
 		o.Verdict, o.Solver = "unsat", "syntactic"
 		return
 	}
+	if !o.Cover && o.Goal == "false" {
+		// an unreachability claim: the path hypotheses themselves must be refuted.  A single
+		// solver run refuting a large hypothesis set has been observed to be unstable (not
+		// reproducible under another seed or solver), so a refutation counts only when a
+		// second, independent run confirms it.
+		s.solveUnreachable(o)
+		return
+	}
 	if !o.Cover && !o.noSplit {
 		if parts := splitGoal(o.Goal); len(parts) > 1 {
 			// first the whole goal with a short budget
@@ -382,4 +390,48 @@ func (s *Solver) solveAll(obs []*Oblig, workers int) {
 	}
 	close(ch)
 	wg.Wait()
+}
+
+func (s *Solver) solveUnreachable(o *Oblig) {
+	script := o.script(true)
+	h := sha256.Sum256([]byte(script))
+	file := filepath.Join(s.dir, hex.EncodeToString(h[:12])+".unreach.smt2")
+	os.WriteFile(file, []byte(script), 0o644)
+	defer os.Remove(file)
+	first := runSolver(solvers[0], file, 6, s.seed)
+	raw := fmt.Sprintf("[%s %dms] %s\n", first.solver, first.ms, strings.TrimSpace(trunc(first.out, 300)))
+	ms := first.ms
+	nq := 1
+	verdict, by := first.verdict, first.solver
+	if first.verdict == "unsat" {
+		confirmed := false
+		type alt struct {
+			sv   solverSpec
+			seed int
+		}
+		alts := []alt{{solvers[0], s.seed + 7919}, {solvers[1], s.seed}, {solvers[2], s.seed}, {solvers[0], s.seed + 104729}}
+		for _, a := range alts {
+			r := runSolver(a.sv, file, 10, a.seed)
+			nq++
+			ms += r.ms
+			raw += fmt.Sprintf("[%s seed %d %dms] %s\n", r.solver, a.seed, r.ms, strings.TrimSpace(trunc(r.out, 200)))
+			if r.verdict == "unsat" {
+				confirmed = true
+				by += "+" + r.solver
+				break
+			}
+		}
+		if !confirmed {
+			verdict = "unknown"
+			raw += "refutation of the path hypotheses was not confirmed by a second solver run; the path counts as reachable\n"
+		}
+	}
+	s.mu.Lock()
+	s.totalMS += ms
+	s.queries += nq
+	if verdict == "unsat" {
+		s.bySolver[by]++
+	}
+	s.mu.Unlock()
+	o.Verdict, o.Solver, o.TimeMS, o.Raw = verdict, by, ms, raw
 }
